@@ -21,6 +21,15 @@ CHECKS = {
         "covers": ["C02/window-reached"],
         "assumptions": A_COMMON,
     },
+    "C04": {
+        "groups": [{"pkgs": "./x/storage/keeper", "fns": ["VH_C04_share_kernel", "VH_C04_buy_fresh"], "opts": {"j": 2, "w": 8}},
+                   {"pkgs": "./x/storage/keeper", "fns": ["VH_C04_buy_plan", "VH_C04_buy_names"], "opts": {"j": 2, "w": 8}, "thorough_only": True}],
+        "covers": ["C04/share-kernel-reached", "C04/buy-succeeds", "C04/buy-fails", "C04/buy-referred"],
+        "bounds": {"days": 100000, "ratio grid quick": "{25,40}^2", "ratio grid thorough": "{0,10,25,40,60}^2 (the share arithmetic itself is proved for every whole percentage by the kernel)"},
+        "assumptions": A_COMMON + A_STORE + A_BANK + ["cut: Keeper.GetStorageCost is replaced by an arbitrary non-negative amount (the purchase is charged whatever the chain's price function returns)",
+                                                      "params satisfy the module's validators; ReferralCommission + PolRatio <= 100"],
+        "outside": ["durations above 100000 days (time.Duration wraps beyond ~106751 days)", "price fairness (only consistency with the chain's own price function)"],
+    },
     "C08": {
         "groups": [{"pkgs": "./x/rns/keeper", "fns": ["VH_C08_*"]}],
         "covers": ["C08/buy-succeeds", "C08/buy-fails", "C08/buy-ownership-moved"],
